@@ -26,6 +26,7 @@ RULE = (
     "flanks (K.PEP.A, -.PEP.-), shared and (<2%) unknown peptides; direct: picked_protein(); files: "
     "assign_confidence(proteins=...) outputs incl. protein q-values. Non-trivial = >=1 pair in which both the "
     "target and the decoy group own a retained peptide and >=1 shared peptide present; distinct = case parameters."
+    " cli_digest: the command-line tool with --proteins and non-default --decoy_prefix / --missed_cleavages / --min_length / --clip_nterm_methionine on databases where the option matters (initiator methionines, peptides spanning a missed cleavage), judged against read_fasta() with the same options."
 )
 ASSUMPTIONS = [
     "token -> group lookup uses the real Proteins.peptide_map (C16)",
@@ -41,10 +42,12 @@ def plan(seed, tier):
     m = 12 if tier == "quick" else 800
     cases += [{"class": "files", "index": i, "order": ["generated", "decoys_shuffled", "all_shuffled"][i % 3],
                "fmt": ["pin", "parquet"][i % 2], "cost": 6} for i in range(m)]
+    k = 4 if tier == "quick" else 60
+    cases += [{"class": "cli_digest", "index": i, "cost": 15} for i in range(k)]
     return cases
 
 
-MANDATORY_CLASSES = ["direct", "files"]
+MANDATORY_CLASSES = ["direct", "files", "cli_digest"]
 
 
 def pair_key(group, prefix):
@@ -247,5 +250,83 @@ def run_files(case):
     return res
 
 
+def run_cli_digest(case):
+    """The `mokapot` command-line tool with --proteins and non-default digest options (decoy prefix, missed cleavages,
+    minimum length, N-terminal methionine clipping): its protein files must be those implied by read_fasta() with the
+    same options (the harness builds that Proteins object itself) applied to the run's own peptide files."""
+    import copy
+
+    mokapot = core.import_mokapot()
+    rng = core.seed_seq(case["seed"], "C15", "cli_digest", case["index"])
+    res = Result(case)
+    i = case["index"]
+    prefix = ["decoy_", "rev_"][i % 2]
+    clip = bool(i % 4 in (0, 3))
+    missed = int(i % 3 == 1) + int(i % 6 == 5)
+    minlen = [6, 7][(i // 2) % 2]
+    with core.scratch("c15c") as d:
+        db = prot.protein_db(rng, n_prot=int(rng.integers(90, 130)), prefix=prefix)
+        names = list(db["targets"])
+        with_m = {nm for nm in names if rng.random() < 0.35} if clip else set()
+        fa = d / "db.fasta"
+        with open(fa, "w") as fh:
+            for nm in names:
+                fh.write(f">{nm} d\n{'M' if nm in with_m else ''}{''.join(db['targets'][nm])}\n")
+            for nm in names:
+                fh.write(f">{prefix}{nm} d\n{'M' if nm in with_m else ''}{''.join(db['decoys'][prefix + nm])}\n")
+        # peptides the PSMs are drawn from: the tokens; with missed cleavages also some adjacent pairs
+        dbp = copy.deepcopy(db)
+        if missed:
+            for nm in names:
+                toks = db["targets"][nm]
+                dtoks = db["decoys"][prefix + nm]
+                for a in range(len(toks) - 1):
+                    if rng.random() < 0.3 and len(toks[a]) + len(toks[a + 1]) <= 30:
+                        dbp["targets"][nm].append(toks[a] + toks[a + 1])
+                        dbp["decoys"][prefix + nm].append(dtoks[a] + dtoks[a + 1])
+        proteins = mokapot.read_fasta(str(fa), missed_cleavages=missed, min_length=minlen, decoy_prefix=prefix,
+                                      clip_nterm_methionine=clip)
+        tab = prot.psm_table_for_db(rng, dbp, n_spectra=int(rng.integers(600, 900)), styles=("plain", "mod_sq", "flank"), sep=2.5)
+        path = psm.write_pin(tab, d / "t.pin")
+        toks = tab["truth"]["token"]
+        unmapped = float(np.mean([t not in proteins.peptide_map and t not in proteins.shared_peptides for t in toks]))
+        args = [path, "--dest_dir", d / "out", "--proteins", fa, "--decoy_prefix", prefix, "--missed_cleavages", missed,
+                "--min_length", minlen, "--keep_decoys", "--seed", 5, "--folds", 2, "--max_iter", 2, "--train_fdr", 0.1,
+                "--test_fdr", 0.1, "-v", 0, "--max_workers", 1, "--peps_algorithm", "kde_nnls"] + (["--clip_nterm_methionine"] if clip else [])
+        c = core.Call(core.mk("mokapot.mokapot").main, [str(a) for a in args])
+        res.count("cli_runs")
+        extra = dict(prefix=prefix, clip=clip, missed_cleavages=missed, min_length=minlen, n_proteins=len(names),
+                     peptides_unmapped_under_these_options=round(unmapped, 4))
+        if not c.ok:
+            if c.info.get("file") == "peps.py":
+                res["status"] = "refused"
+                res["note"] = "PEP estimator failed: " + c.sig
+                res.count("pep_estimation_failed_few_decoys")
+                return res
+            if c.explicit and not ("matched" in c.info["msg"] or "mapped" in c.info["msg"] or "digest" in c.info["msg"]):
+                res["status"] = "refused"
+                res["note"] = c.info["msg"]
+                return res
+            if c.explicit and unmapped > 0.04:
+                res["status"] = "refused"
+                res["note"] = c.info["msg"]
+                return res
+            res.violate("cli_fails_with_digest_options" if c.explicit else "crash", c.sig, msg=c.info["msg"], **extra)
+            return res
+        files = pipeline.read_results(d / "out")
+        if "targets.proteins" not in files or "decoys.proteins" not in files:
+            res.violate("missing_result_file", "proteins", files=sorted(files), **extra)
+            return res
+        pep = pd.concat([files["targets.peptides"].assign(_target=True), files["decoys.peptides"].assign(_target=False)], ignore_index=True)
+        tok_of = dict(zip(tab["df"]["SpecId"].astype(str), tab["truth"]["token"]))
+        rows = pd.DataFrame({"peptide": pep["peptide"].astype(str), "token": [tok_of[x] for x in pep["PSMId"].astype(str)],
+                             "score": pep["score"].astype(float), "target": pep["_target"]})
+        ent = pd.concat([files["targets.proteins"].assign(_target=True), files["decoys.proteins"].assign(_target=False)], ignore_index=True)
+        judge_entries(res, ent, rows, proteins, prefix, extra)
+        res["nontrivial"] = bool(len(files["decoys.proteins"]) > 0 and len(files["targets.proteins"]) > 0)
+        res["sample"] = dict(extra, targets=len(files["targets.proteins"]), decoys=len(files["decoys.proteins"]))
+    return res
+
+
 def run_case(case):
-    return {"direct": run_direct, "files": run_files}[case["class"]](case)
+    return {"direct": run_direct, "files": run_files, "cli_digest": run_cli_digest}[case["class"]](case)
